@@ -3208,6 +3208,736 @@ Proof.
   - split; [exact HJ1|exact UN].
 Qed.
 
+
+
+(* ---- computed index and slices: compileCallInternal with indexing = 1 ---- *)
+
+(* an argument of an internal call in continuation form: the outputs w of q (an argument in any of its forms, run on the
+   saved input v of slot k) are pushed on st1 and the continuation f w runs from there *)
+Lemma arg_step : forall q, Impl q -> forall sc cur base, frameOK sc cur base ->
+  forall ce p sn cb nvc s1 k, cur < sn -> ce_lt ce sn = true -> comp q ce sn (p + 2) 0 (S sn) = Some (cb, nvc, s1) ->
+  code_at p (arg_code (cur, k) p sn cb nvc) ->
+  forall (f : jv -> result) (v : jv) rho pcE st st1 fk nvq hi o ko (K K0 : nat -> Prop) n0 lim
+         (P : list sv -> nat -> gx -> Prop) vs n g,
+  let c := ctx_of sc pcE st fk (base + nvq) hi o ko K K0 ce n0 (ctr g) in
+  let Jg := fun p : list sv => nth_error p (base + k) = Some (SV v) in
+  stable c P -> Jstd sc ce rho n0 lim o P vs n g -> Jg vs ->
+  base + nvq <= hi -> hi <= ko -> ko <= o -> lim <= base + nvq -> k < nvq -> K (base + k) ->
+  (forall i, base + nvq <= i < hi -> K i) -> (forall i, kept sc ce i -> K i) -> (forall i, K0 i -> K i) ->
+  (forall w fk2 vs2 n2 o2 g2 (K02 : nat -> Prop) (P2 : list sv -> nat -> gx -> Prop),
+      let c2 := ctx_of sc pcE st fk2 (base + nvq) hi o2 ko K K02 ce n0 (ctr g2) in
+      stable c2 P2 -> Jstd sc ce rho n0 lim o2 P2 vs2 n2 g2 -> Jg vs2 -> (forall i, K02 i -> K i) -> ko <= o2 ->
+      G c2 (fst (f w)) (Tend c2 (snd (f w)) P2) (N sc (p + length (arg_code (cur, k) p sn cb nvc)) (SV w :: st1) fk2 vs2 n2 o2 g2)) ->
+  G c (fst (bind (den q rho v) f)) (Tend c (snd (bind (den q rho v) f)) P) (N sc p st1 fk vs n o g).
+Proof.
+  intros q IH sc cur base Hfr ce p sn cb nvc s1 k Hlt Hce Ec Hat f v rho pcE st st1 fk nvq hi o ko K K0 n0 lim P vs n g c Jg
+         HS HJ HG Hhi Hko Hoo Hlim Hk HKk HK1 HK2 HK0 Hcont.
+  pose proof (frameOK_cur _ _ _ Hfr) as Hcur.
+  pose proof HJ as (HE & Hn & Hlen & HP).
+  assert (Hkl : forall i, kept sc ce i -> i < lim) by (intros; eapply kept_lt; eauto).
+  destruct (stable_sub _ _ _ _ _ _ _ _ _ _ _ _ _ _ HS) as [S1' S2'].
+  assert (HJgK : forall p q, Jg p -> keepX K p q -> Jg q).
+  { intros p0 q0 Hg C. unfold Jg in *. rewrite <- Hg. symmetry. apply C. exact HKk. }
+  set (pA := p + length (arg_code (cur, k) p sn cb nvc)) in *.
+  assert (HA : G (ctx_of sc pA st1 fk (base + nvq) (base + nvq) o o (fun i => base + nvq <= i < base + nvq \/ kept sc ce i) (fun _ => False) ce n0 (ctr g))
+                 (fst (den q rho v))
+                 (Tend (ctx_of sc pA st1 fk (base + nvq) (base + nvq) o o (fun i => base + nvq <= i < base + nvq \/ kept sc ce i) (fun _ => False) ce n0 (ctr g))
+                    (snd (den q rho v)) (fun _ _ _ => True))
+                 (N sc p st1 fk vs n o g)).
+  { assert (HEl : envOK sc ce rho vs n0 (base + nvq)) by (eapply envOK_lim; [exact HE|lia]).
+    apply (G_arg q IH sc cur base Hfr ce p sn cb nvc s1 k Hlt Hce Ec Hat
+             (ctx_of sc pA st1 fk (base + nvq) (base + nvq) o o (fun i => base + nvq <= i < base + nvq \/ kept sc ce i) (fun _ => False) ce n0 (ctr g))
+             rho v (fun _ _ _ => True) vs n o g nvq); simpl; auto; try lia. }
+  refine (bind_std f Jg sc pA st1 (base + nvq) (base + nvq) pcE st fk (base + nvq) hi o ko K K0 ce n0 (ctr g) rho lim P
+            (fun i => base + nvq <= i < hi) ce
+            HS (le_n _) Hhi Hko Hoo Hlim Hhi Hkl HK1 HK2 HK0 _ eq_refl _ HJgK _ (den q rho v) _ HA _ (le_n _)).
+  - intros i Hi. lia.
+  - intros p0 q0 Hg C. unfold Jg in *. rewrite <- Hg. symmetry. apply C. lia.
+  - intros w fk' vs' n' o' x Hj Ho' Ht' Hfk Hwk Hin. pose proof Hj as ((E' & Hn' & Hl' & Hp') & Hg').
+    set (J := fun p m y => Jstd sc ce rho n0 lim o P p m y /\ Jg p) in *.
+    set (Jf := fun p m (y : gx) => P p m y /\ True) in *.
+    set (P' := wk fk' J Jf).
+    set (K0' := match fk' with [] => K0 | _ :: _ => K end).
+    assert (HK0' : forall i, K0' i -> K i) by (intros i Hi; exact (wk_K _ _ _ _ HK0 Hi)).
+    assert (HS' : stable (ctx_of sc pcE st (fk' ++ fk) (base + nvq) hi o' ko K K0' ce n0 (ctr x)) P').
+    { split.
+      - apply wk_chg.
+        + intros p0 q0 m y m' y' [Hq Hg] C Hm. split.
+          * eapply (Jstd_chg' _ _ _ _ _ _ (base + nvq) hi); [exact S1'| |exact Hq|exact C|exact Hm]. simpl; intros; lia.
+          * unfold Jg in *. rewrite <- Hg. symmetry. apply C. simpl. lia.
+        + intros p0 q0 m y m' y' [Hq _] C Hm. split; auto. eapply (S1' _ p0 q0 m y m' y'); [|exact Hq|exact C|exact Hm]. simpl; intros; lia.
+      - exact Hwk. }
+    assert (HJ' : Jstd sc ce rho n0 lim o' P' vs' n' x).
+    { split; [exact E'|]. split; [exact Hn'|]. split; [lia|]. apply Hin. exact Hj. }
+    exact (Hcont w (fk' ++ fk) vs' n' o' x K0' P' HS' HJ' Hg' HK0' ltac:(lia)).
+  - split; [exact HJ|exact HG].
+Qed.
+
+Lemma wrap_exp_long : forall c, 2 <= length c -> wrap_exp c = Iexpbegin :: c ++ [Iexpend].
+Proof. intros [|a [|b r]] H; simpl in *; try lia. reflexivity. Qed.
+Lemma arg_code_cases : forall v p sn cb nvc,
+  (cb = [] /\ arg_code v p sn cb nvc = [Iload v]) \/
+  (exists c, cb = [Iconst c] /\ nvc = 0 /\ arg_code v p sn cb nvc = [Ipush c]) \/
+  2 <= length (arg_code v p sn cb nvc).
+Proof.
+  intros v p sn cb nvc. unfold arg_code. destruct cb as [|x [|y r]]; [left; auto| |right; right; simpl; lia].
+  destruct (Nat.eqb_spec nvc 0) as [->|Hn]; [|right; right; simpl; lia].
+  destruct x; try (right; right; simpl; lia). right; left. eauto.
+Qed.
+Lemma ce_lt_comp : forall q ce ce' tp cur pc nv sn cq nv' sn' sn0, compg tco q ce' tp cur pc nv sn = Some (cq, nv', sn') ->
+  ce_lt ce sn0 = true -> sn0 <= sn -> ce_lt ce sn' = true.
+Proof.
+  intros q ce ce' tp cur pc nv sn cq nv' sn' sn0 Ec H Hle. destruct (comp_mono _ _ _ _ _ _ _ _ _ Ec) as [_ M].
+  eapply ce_lt_mono; [exact H|lia].
+Qed.
+
+(* the last argument of _index / _slice (the term t), then  push null; call *)
+Lemma impl_indexq : forall t q, Impl t -> Impl q -> Impl (QIndexQ t q).
+Proof.
+  intros t q IHt IHq. impl_intro.
+  destruct (comp_indexq_inv _ _ _ _ _ _ _ _ _ _ _ _ Hc) as (Hkc & Hlt & Hce & cb & nb & s1 & ca & na & Eb & Ea & -> & ->). clear Hc.
+  assert (Hce1 : ce_lt ce s1 = true) by (eapply ce_lt_comp; [exact Eb|exact Hce|lia]).
+  destruct (comp_mono _ _ _ _ _ _ _ _ _ Eb) as [_ Ms1].
+  set (cb' := arg_code (cur, nv) (S (S pc)) sn cb nb) in *.
+  set (wq := wrap_exp cb') in *.
+  set (ca' := arg_code (cur, nv) (S pc + length wq) s1 ca na) in *.
+  std_facts. pose proof (conj S1 S2) as HS. destruct (stable_sub _ _ _ _ _ _ _ _ _ _ _ _ _ _ HS) as [S1' S2'].
+  assert (HJ0 : Jstd sc ce rho n0 (base + nv) o P vs n g) by (split; auto).
+  uncons Hat A0. destruct (code_at_app _ _ _ _ Hat) as [Hatq Hat2].
+  destruct (code_at_app _ _ _ _ Hat2) as [Hata Hat3]. uncons Hat3 A1. uncons Hat3 A2.
+  set (pA := S pc + length wq) in *. set (pL := pA + length ca') in *.
+  assert (Epc : pc + length (Istore (cur, nv) :: wq ++ ca' ++ [Ipush VNull; Icall NIndex2]) = S (S pL)).
+  { simpl. rewrite !app_length. simpl. unfold pL, pA. lia. }
+  subst c. rewrite Epc in *.
+  set (c := ctx_of sc (S (S pL)) st fk (base + nv) (base + S nv) o ko K K0 ce n0 (ctr g)).
+  destruct (update_some vs (base + nv) (SV v)) as [vs1 U]; [lia|].
+  destruct (update_spec _ _ _ _ U) as (UL & UN & UO).
+  assert (HJ1 : Jstd sc ce rho n0 (base + nv) o P vs1 n g) by (eapply Jstd_update; [exact S1'|exact HJ0|exact U|lia|lia]).
+  eapply G_pre; [eapply steps_step; [eapply st_store; [exact A0|apply Hcur|exact U]|apply steps_refl]
+                |eapply chg_update; [exact U|simpl; lia]|cl|].
+  set (cbx := ctx_of sc (S (S pL)) st fk (base + S nv) (base + S nv) o ko K K0 ce n0 (ctr g)).
+  assert (HSb : stable cbx P).
+  { split.
+    - intros a b m g0 m' g' Hp C Hm. eapply S1; [exact Hp| |exact Hm]. eapply chg_mono; [|exact C]. subst cbx; simpl. intros; lia.
+    - exact S2. }
+  cbn [Den.den1].
+  set (Jg := fun p : list sv => nth_error p (base + nv) = Some (SV v)).
+  (* the term, then the call *)
+  assert (Htail : forall r fk2 vs2 n2 o2 g2 (K02 : nat -> Prop) (P2 : list sv -> nat -> gx -> Prop),
+            let c2 := ctx_of sc (S (S pL)) st fk2 (base + S nv) (base + S nv) o2 ko K K02 ce n0 (ctr g2) in
+            stable c2 P2 -> Jstd sc ce rho n0 (base + nv) o2 P2 vs2 n2 g2 -> Jg vs2 -> (forall i, K02 i -> K i) -> ko <= o2 ->
+            G c2 (fst (bind (den t rho v) (fun w => of_sum (n_index nt w r)))) (Tend c2 (snd (bind (den t rho v) (fun w => of_sum (n_index nt w r)))) P2)
+              (N sc pA (SV r :: st) fk2 vs2 n2 o2 g2)).
+  { intros r fk2 vs2 n2 o2 g2 K02 P2 c2 HS2 HJ2 HG2 HK02 Hko2.
+    refine (arg_step t IHt sc cur base Hfr ce pA s1 ca na sn' nv ltac:(lia) Hce1 Ea Hata
+              (fun w => of_sum (n_index nt w r)) v rho (S (S pL)) st (SV r :: st) fk2 (S nv) (base + S nv) o2 ko K K02 n0 (base + nv) P2 vs2 n2 g2
+              HS2 HJ2 HG2 (le_n _) Hko Hko2 ltac:(lia) ltac:(lia) ltac:(apply HK1; lia) ltac:(intros; lia) HK2 HK02 _).
+    intros w fk3 vs3 n3 o3 g3 K03 P3 c3 [S31 S32] HJ3 HG3 HK03 Hko3. pose proof HJ3 as (_ & _ & Hl3 & HP3).
+    fold ca'. fold pL.
+    destruct (n_index nt w r) as [u|e] eqn:E; cbn [of_sum fst snd].
+    - apply G_single with (vs3 := vs3) (n3 := n3) (o3 := o3) (g3 := g3).
+      + subst c3; simpl. one st_push. one st_index2_ok. apply steps_refl.
+      + apply chg_refl.
+      + cl.
+      + simpl; lia.
+      + intros vs4 n4 g4 Kp L. eapply S32; eauto.
+    - eapply G_end; [one st_push; one st_index2_err; apply steps_refl|apply chg_refl|cl|reflexivity|exact HP3]. }
+  assert (HT : G cbx (fst (bind (den q rho v) (fun k => bind (den t rho v) (fun w => of_sum (n_index nt w k)))))
+                 (Tend cbx (snd (bind (den q rho v) (fun k => bind (den t rho v) (fun w => of_sum (n_index nt w k))))) P)
+                 (N sc (S pc) st fk vs1 n o g)).
+  { destruct (arg_code_cases (cur, nv) (S (S pc)) sn cb nb) as [[-> Earg]|[(k0 & -> & -> & Earg)|Hlong]]; fold cb' in Earg || fold cb' in Hlong.
+    - (* the index is `.`: load v *)
+      destruct (comp_nil _ _ _ _ _ _ _ _ Eb) as (E1 & _ & _). rewrite (emptycode_den nt _ _ E1), bind_single.
+      assert (Hatq' : code_at (S pc) [Iload (cur, nv)]) by (unfold wq in Hatq; rewrite Earg in Hatq; exact Hatq). uncons Hatq' B0.
+      eapply G_pre; [eapply steps_step; [eapply st_load; [exact B0|apply Hcur|exact UN]|apply steps_refl]|apply chg_refl|cl|].
+      replace (S (S pc)) with pA by (unfold pA, wq; rewrite Earg; simpl; lia).
+      exact (Htail v fk vs1 n o g K0 P HSb HJ1 UN HK0 Hoo).
+    - (* a constant index: push c *)
+      rewrite (comp_const1 nt _ _ _ _ _ _ _ _ _ _ Eb rho v), bind_single.
+      assert (Hatq' : code_at (S pc) [Ipush k0]) by (unfold wq in Hatq; rewrite Earg in Hatq; exact Hatq). uncons Hatq' B0.
+      eapply G_pre; [one st_push; apply steps_refl|apply chg_refl|cl|].
+      replace (S (S pc)) with pA by (unfold pA, wq; rewrite Earg; simpl; lia).
+      exact (Htail k0 fk vs1 n o g K0 P HSb HJ1 UN HK0 Hoo).
+    - (* expbegin; the argument; expend *)
+      assert (Hatq' : code_at (S pc) (Iexpbegin :: cb' ++ [Iexpend])) by (unfold wq in Hatq; rewrite (wrap_exp_long _ Hlong) in Hatq; exact Hatq).
+      uncons Hatq' B0. destruct (code_at_app _ _ _ _ Hatq') as [Hatq1 Hatq2]. uncons Hatq2 B1.
+      eapply G_pre; [one st_expbegin; apply steps_refl|apply chg_refl|cl|].
+      refine (arg_step q IHq sc cur base Hfr ce (S (S pc)) sn cb nb s1 nv Hlt Hce Eb Hatq1
+                (fun k => bind (den t rho v) (fun w => of_sum (n_index nt w k))) v rho (S (S pL)) st st fk (S nv) (base + S nv) o ko K K0 n0 (base + nv) P vs1 n g
+                HSb HJ1 UN (le_n _) Hko Hoo ltac:(lia) ltac:(lia) ltac:(apply HK1; lia) ltac:(intros; lia) HK2 HK0 _).
+      intros r fk2 vs2 n2 o2 g2 K02 P2 c2 HS2 HJ2 HG2 HK02 Hko2. fold cb'.
+      eapply G_pre; [one st_expend; apply steps_refl|apply chg_refl|cl|].
+      replace (S (S (S pc) + length cb')) with pA by (unfold pA, wq; rewrite (wrap_exp_long _ Hlong); simpl; rewrite app_length; simpl; lia).
+      exact (Htail r fk2 vs2 n2 o2 g2 K02 P2 HS2 HJ2 HG2 HK02 Hko2). }
+  refine (G_sub nt code cbx c _ _ eq_refl eq_refl eq_refl eq_refl _ _ _ (le_n _) (le_n _) (le_n _) _ _ _ HT).
+  - subst cbx c; simpl. intros; lia.
+  - intros o3 a b Kp. exact Kp.
+  - intros a b Kp. exact Kp.
+  - intros s0. apply Tend_sub; auto. subst cbx c; simpl. intros; lia.
+Qed.
+
+Lemma impl_slice : forall t a b, Impl t -> Impl a -> Impl b -> Impl (QSlice t a b).
+Proof.
+  intros t a b IHt IHa IHb. impl_intro.
+  destruct (comp_slice_inv _ _ _ _ _ _ _ _ _ _ _ _ _ Hc) as (Hkc & Hlt & Hce & ca & na & s1 & cb & nb & s2 & ct & nt0 & Ea & Eb & Et & -> & ->). clear Hc.
+  cbv zeta in Ea, Eb, Et.
+  assert (Hce1 : ce_lt ce s1 = true) by (eapply ce_lt_comp; [exact Ea|exact Hce|lia]).
+  destruct (comp_mono _ _ _ _ _ _ _ _ _ Ea) as [_ Ms1].
+  assert (Hce2 : ce_lt ce s2 = true) by (eapply ce_lt_comp; [exact Eb|exact Hce1|lia]).
+  destruct (comp_mono _ _ _ _ _ _ _ _ _ Eb) as [_ Ms2].
+  set (ca' := arg_code (cur, nv) (S (S pc)) sn ca na) in *.
+  set (cb' := arg_code (cur, nv) (S (S pc) + length ca') s1 cb nb) in *.
+  set (pB := S (S pc) + length ca') in *. set (pE := pB + length cb') in *.
+  subst c. rewrite (Nat.add_1_r pE) in *.
+  set (ct' := arg_code (cur, nv) (S pE) s2 ct nt0) in *.
+  std_facts. pose proof (conj S1 S2) as HS. destruct (stable_sub _ _ _ _ _ _ _ _ _ _ _ _ _ _ HS) as [S1' S2'].
+  assert (HJ0 : Jstd sc ce rho n0 (base + nv) o P vs n g) by (split; auto).
+  uncons Hat A0. uncons Hat A1. destruct (code_at_app _ _ _ _ Hat) as [Hata Hat2].
+  destruct (code_at_app _ _ _ _ Hat2) as [Hatb Hat3]. uncons Hat3 A2.
+  destruct (code_at_app _ _ _ _ Hat3) as [Hatt Hat4]. uncons Hat4 A3. uncons Hat4 A4.
+  set (pL := S pE + length ct') in *.
+  assert (Epc : pc + length (Istore (cur, nv) :: Iexpbegin :: ca' ++ cb' ++ Iexpend :: ct' ++ [Ipush VNull; Icall NSlice3]) = S (S pL)).
+  { simpl. rewrite !app_length. simpl. rewrite !app_length. simpl. unfold pL, pE, pB. lia. }
+  rewrite Epc in *.
+  set (c := ctx_of sc (S (S pL)) st fk (base + nv) (base + S nv) o ko K K0 ce n0 (ctr g)).
+  destruct (update_some vs (base + nv) (SV v)) as [vs1 U]; [lia|].
+  destruct (update_spec _ _ _ _ U) as (UL & UN & UO).
+  assert (HJ1 : Jstd sc ce rho n0 (base + nv) o P vs1 n g) by (eapply Jstd_update; [exact S1'|exact HJ0|exact U|lia|lia]).
+  eapply G_pre; [eapply steps_step; [eapply st_store; [exact A0|apply Hcur|exact U]|]; one st_expbegin; apply steps_refl
+                |eapply chg_update; [exact U|simpl; lia]|cl|].
+  set (cbx := ctx_of sc (S (S pL)) st fk (base + S nv) (base + S nv) o ko K K0 ce n0 (ctr g)).
+  assert (HSb : stable cbx P).
+  { split.
+    - intros a0 b0 m g0 m' g' Hp C Hm. eapply S1; [exact Hp| |exact Hm]. eapply chg_mono; [|exact C]. subst cbx; simpl. intros; lia.
+    - exact S2. }
+  cbn [Den.den1].
+  set (Jg := fun p : list sv => nth_error p (base + nv) = Some (SV v)).
+  assert (HT : G cbx (fst (bind (den a rho v) (fun s => bind (den b rho v) (fun e => bind (den t rho v) (fun w => of_sum (n_slice nt w e s))))))
+                 (Tend cbx (snd (bind (den a rho v) (fun s => bind (den b rho v) (fun e => bind (den t rho v) (fun w => of_sum (n_slice nt w e s)))))) P)
+                 (N sc (S (S pc)) st fk vs1 n o g)).
+  { refine (arg_step a IHa sc cur base Hfr ce (S (S pc)) sn ca na s1 nv Hlt Hce Ea Hata
+              (fun s => bind (den b rho v) (fun e => bind (den t rho v) (fun w => of_sum (n_slice nt w e s)))) v rho (S (S pL)) st st fk (S nv) (base + S nv) o ko K K0 n0 (base + nv) P vs1 n g
+              HSb HJ1 UN (le_n _) Hko Hoo ltac:(lia) ltac:(lia) ltac:(apply HK1; lia) ltac:(intros; lia) HK2 HK0 _).
+    intros s fk2 vs2 n2 o2 g2 K02 P2 c2 HS2 HJ2 HG2 HK02 Hko2. fold ca'. fold pB.
+    refine (arg_step b IHb sc cur base Hfr ce pB s1 cb nb s2 nv ltac:(lia) Hce1 Eb Hatb
+              (fun e => bind (den t rho v) (fun w => of_sum (n_slice nt w e s))) v rho (S (S pL)) st (SV s :: st) fk2 (S nv) (base + S nv) o2 ko K K02 n0 (base + nv) P2 vs2 n2 g2
+              HS2 HJ2 HG2 (le_n _) Hko Hko2 ltac:(lia) ltac:(lia) ltac:(apply HK1; lia) ltac:(intros; lia) HK2 HK02 _).
+    intros e fk3 vs3 n3 o3 g3 K03 P3 c3 HS3 HJ3 HG3 HK03 Hko3. fold cb'. fold pE.
+    eapply G_pre; [one st_expend; apply steps_refl|apply chg_refl|cl|].
+    refine (arg_step t IHt sc cur base Hfr ce (S pE) s2 ct nt0 sn' nv ltac:(lia) Hce2 Et Hatt
+              (fun w => of_sum (n_slice nt w e s)) v rho (S (S pL)) st (SV e :: SV s :: st) fk3 (S nv) (base + S nv) o3 ko K K03 n0 (base + nv) P3 vs3 n3 g3
+              HS3 HJ3 HG3 (le_n _) Hko Hko3 ltac:(lia) ltac:(lia) ltac:(apply HK1; lia) ltac:(intros; lia) HK2 HK03 _).
+    intros w fk4 vs4 n4 o4 g4 K04 P4 c4 [S41 S42] HJ4 HG4 HK04 Hko4. pose proof HJ4 as (_ & _ & Hl4 & HP4).
+    fold ct'. fold pL.
+    destruct (n_slice nt w e s) as [u|x] eqn:E; cbn [of_sum fst snd].
+    - apply G_single with (vs3 := vs4) (n3 := n4) (o3 := o4) (g3 := g4).
+      + subst c4; simpl. one st_push. one st_slice3_ok. apply steps_refl.
+      + apply chg_refl.
+      + cl.
+      + simpl; lia.
+      + intros vs5 n5 g5 Kp L. eapply S42; eauto.
+    - eapply G_end; [one st_push; one st_slice3_err; apply steps_refl|apply chg_refl|cl|reflexivity|exact HP4]. }
+  refine (G_sub nt code cbx c _ _ eq_refl eq_refl eq_refl eq_refl _ _ _ (le_n _) (le_n _) (le_n _) _ _ _ HT).
+  - subst cbx c; simpl. intros; lia.
+  - intros o3 a0 b0 Kp. exact Kp.
+  - intros a0 b0 Kp. exact Kp.
+  - intros s0. apply Tend_sub; auto. subst cbx c; simpl. intros; lia.
+Qed.
+
+(* ---- object construction ---- *)
+
+(* a bind whose continuation runs on a deeper stack: the outputs w of q (run on SV v' :: st1) are left on top of
+   st1 and the continuation f w runs from there in the rest of the segment's own range.  k: a slot below the
+   range that holds the value v during the whole composition (the input saved by compileObject) *)
+Lemma obj_step : forall q, Impl q -> forall sc cur base, frameOK sc cur base ->
+  forall ce pcq nvq sn cq nvq' sn', comp q ce cur pcq nvq sn = Some (cq, nvq', sn') -> code_at pcq cq ->
+  forall (f : jv -> result) (k : nat) (v v' : jv) rho pcE st st1 fk hi o ko (K K0 : nat -> Prop) n0 lim
+         (P : list sv -> nat -> gx -> Prop) vs n g,
+  let c := ctx_of sc pcE st fk (base + nvq) hi o ko K K0 ce n0 (ctr g) in
+  let Jg := fun p : list sv => nth_error p (base + k) = Some (SV v) in
+  stable c P -> Jstd sc ce rho n0 lim o P vs n g -> Jg vs ->
+  base + nvq' <= hi -> hi <= ko -> ko <= o -> lim <= base + nvq -> k < nvq -> K (base + k) ->
+  (forall i, base + nvq <= i < hi -> K i) -> (forall i, kept sc ce i -> K i) -> (forall i, K0 i -> K i) ->
+  (forall w fk2 vs2 n2 o2 g2 (K02 : nat -> Prop) (P2 : list sv -> nat -> gx -> Prop),
+      let c2 := ctx_of sc pcE st fk2 (base + nvq') hi o2 ko K K02 ce n0 (ctr g2) in
+      stable c2 P2 -> Jstd sc ce rho n0 lim o2 P2 vs2 n2 g2 -> Jg vs2 -> (forall i, K02 i -> K i) -> ko <= o2 ->
+      G c2 (fst (f w)) (Tend c2 (snd (f w)) P2) (N sc (pcq + length cq) (SV w :: st1) fk2 vs2 n2 o2 g2)) ->
+  G c (fst (bind (den q rho v') f)) (Tend c (snd (bind (den q rho v') f)) P) (N sc pcq (SV v' :: st1) fk vs n o g).
+Proof.
+  intros q IH sc cur base Hfr ce pcq nvq sn cq nvq' sn' Ec Hat f k v v' rho pcE st st1 fk hi o ko K K0 n0 lim P vs n g c Jg
+         HS HJ HG Hhi Hko Hoo Hlim Hk HKk HK1 HK2 HK0 Hcont.
+  pose proof (frameOK_cur _ _ _ Hfr) as Hcur.
+  destruct (comp_mono _ _ _ _ _ _ _ _ _ Ec) as [M1 _].
+  pose proof HJ as (HE & Hn & Hlen & HP).
+  assert (Hkl : forall i, kept sc ce i -> i < lim) by (intros; eapply kept_lt; eauto).
+  destruct (stable_sub _ _ _ _ _ _ _ _ _ _ _ _ _ _ HS) as [S1' S2'].
+  assert (HJgK : forall p q, Jg p -> keepX K p q -> Jg q).
+  { intros p q0 Hg C. unfold Jg in *. rewrite <- Hg. symmetry. apply C. exact HKk. }
+  assert (HEq : envOK sc ce rho vs n0 (base + nvq)) by (eapply envOK_lim; [exact HE|lia]).
+  pose proof (impl_inner q IH sc cur base Hfr ce pcq nvq sn cq nvq' sn' Ec Hat rho v' st1 fk vs n n0 o g HEq Hn ltac:(lia) Hlen) as HA.
+  cbv zeta in HA.
+  refine (bind_std f Jg sc (pcq + length cq) st1 (base + nvq) (base + nvq') pcE st fk (base + nvq) hi o ko K K0 ce n0 (ctr g) rho lim P
+            (fun i => base + nvq' <= i < hi) ce
+            HS (le_n _) Hhi Hko Hoo Hlim ltac:(lia) Hkl HK1 HK2 HK0 _ eq_refl _ HJgK _ (den q rho v') _ HA _ (le_n _)).
+  - intros i Hi. lia.
+  - intros p q0 Hg C. unfold Jg in *. rewrite <- Hg. symmetry. apply C. lia.
+  - intros w fk' vs' n' o' x Hj Ho' Ht' Hfk Hwk Hin. pose proof Hj as ((E' & Hn' & Hl' & Hp') & Hg').
+    set (J := fun p m y => Jstd sc ce rho n0 lim o P p m y /\ Jg p) in *.
+    set (Jf := fun p m (y : gx) => P p m y /\ True) in *.
+    set (P' := wk fk' J Jf).
+    set (K0' := match fk' with [] => K0 | _ :: _ => K end).
+    assert (HK0' : forall i, K0' i -> K i) by (intros i Hi; exact (wk_K _ _ _ _ HK0 Hi)).
+    assert (HS' : stable (ctx_of sc pcE st (fk' ++ fk) (base + nvq') hi o' ko K K0' ce n0 (ctr x)) P').
+    { split.
+      - apply wk_chg.
+        + intros p q0 m y m' y' [Hq Hg] C Hm. split.
+          * eapply (Jstd_chg' _ _ _ _ _ _ (base + nvq) hi); [exact S1'| |exact Hq|exact C|exact Hm]. simpl; intros; lia.
+          * unfold Jg in *. rewrite <- Hg. symmetry. apply C. simpl. lia.
+        + intros p q0 m y m' y' [Hq _] C Hm. split; auto. eapply (S1' _ p q0 m y m' y'); [|exact Hq|exact C|exact Hm]. simpl; intros; lia.
+      - exact Hwk. }
+    assert (HJ' : Jstd sc ce rho n0 lim o' P' vs' n' x).
+    { split; [exact E'|]. split; [exact Hn'|]. split; [lia|]. apply Hin. exact Hj. }
+    exact (Hcont w (fk' ++ fk) vs' n' o' x K0' P' HS' HJ' Hg' HK0' ltac:(lia)).
+  - split; [exact HJ|exact HG].
+Qed.
+
+(* the same after  load v  (v: the saved input of the object, in slot k) *)
+Lemma obj_lstep : forall q, Impl q -> forall sc cur base, frameOK sc cur base ->
+  forall ce pl nvq sn cq nvq' sn' k, comp q ce cur (S pl) nvq sn = Some (cq, nvq', sn') -> at_ pl (Iload (cur, k)) -> code_at (S pl) cq ->
+  forall (f : jv -> result) (v : jv) rho pcE st st1 fk hi o ko (K K0 : nat -> Prop) n0 lim
+         (P : list sv -> nat -> gx -> Prop) vs n g,
+  let c := ctx_of sc pcE st fk (base + nvq) hi o ko K K0 ce n0 (ctr g) in
+  let Jg := fun p : list sv => nth_error p (base + k) = Some (SV v) in
+  stable c P -> Jstd sc ce rho n0 lim o P vs n g -> Jg vs ->
+  base + nvq' <= hi -> hi <= ko -> ko <= o -> lim <= base + nvq -> k < nvq -> K (base + k) ->
+  (forall i, base + nvq <= i < hi -> K i) -> (forall i, kept sc ce i -> K i) -> (forall i, K0 i -> K i) ->
+  (forall w fk2 vs2 n2 o2 g2 (K02 : nat -> Prop) (P2 : list sv -> nat -> gx -> Prop),
+      let c2 := ctx_of sc pcE st fk2 (base + nvq') hi o2 ko K K02 ce n0 (ctr g2) in
+      stable c2 P2 -> Jstd sc ce rho n0 lim o2 P2 vs2 n2 g2 -> Jg vs2 -> (forall i, K02 i -> K i) -> ko <= o2 ->
+      G c2 (fst (f w)) (Tend c2 (snd (f w)) P2) (N sc (S pl + length cq) (SV w :: st1) fk2 vs2 n2 o2 g2)) ->
+  G c (fst (bind (den q rho v) f)) (Tend c (snd (bind (den q rho v) f)) P) (N sc pl st1 fk vs n o g).
+Proof.
+  intros q IH sc cur base Hfr ce pl nvq sn cq nvq' sn' k Ec A0 Hat f v rho pcE st st1 fk hi o ko K K0 n0 lim P vs n g c Jg
+         HS HJ HG Hhi Hko Hoo Hlim Hk HKk HK1 HK2 HK0 Hcont.
+  pose proof (frameOK_cur _ _ _ Hfr) as Hcur.
+  eapply G_pre; [eapply steps_step; [eapply st_load; [exact A0|apply Hcur|exact HG]|apply steps_refl]|apply chg_refl|cl|].
+  exact (obj_step q IH sc cur base Hfr ce (S pl) nvq sn cq nvq' sn' Ec Hat f k v v rho pcE st st1 fk hi o ko K K0 n0 lim P vs n g
+           HS HJ HG Hhi Hko Hoo Hlim Hk HKk HK1 HK2 HK0 Hcont).
+Qed.
+
+(* the entries not yet evaluated, then opobject; acc: the pairs already on the stack *)
+Lemma obj_tail : forall (es : list ent), Forall (EntP (fun a => Impl a)) es ->
+  forall sc cur base, frameOK sc cur base ->
+  forall ce k ntot pcE st rho v n0 ko (K : nat -> Prop) lim hi,
+  forall p nvi sni cs nv' sn',
+    comp_ents (fun a p n s => comp a ce cur p n s) (cur, k) es p nvi sni = Some (cs, nv', sn') ->
+    code_at p (concat cs ++ [Iobject ntot]) -> pcE = p + length (concat cs) + 1 ->
+  forall acc, length acc + length es = ntot ->
+  forall fk vs n o g (K0 : nat -> Prop) (P : list sv -> nat -> gx -> Prop),
+    let c := ctx_of sc pcE st fk (base + nvi) hi o ko K K0 ce n0 (ctr g) in
+    let Jg := fun p : list sv => nth_error p (base + k) = Some (SV v) in
+    stable c P -> Jstd sc ce rho n0 lim o P vs n g -> Jg vs ->
+    base + nv' <= hi -> hi <= ko -> ko <= o -> lim <= base + nvi -> k < nvi -> K (base + k) ->
+    (forall i, base + nvi <= i < hi -> K i) -> (forall i, kept sc ce i -> K i) -> (forall i, K0 i -> K i) ->
+    G c (fst (den_ents (fun a => den a rho v) es acc)) (Tend c (snd (den_ents (fun a => den a rho v) es acc)) P)
+      (N sc p (stk_of acc ++ st) fk vs n o g).
+Proof.
+  induction es as [|[k0 qv] r IHr]; intros HF sc cur base Hfr ce k ntot pcE st rho v n0 ko K lim hi p nvi sni cs nv' sn' Hc Hat HpcE acc Hlen
+    fk vs n o g K0 P c Jg HS HJ HG Hhi Hko Hoo Hlim Hk HKk HK1 HK2 HK0;
+    pose proof (frameOK_cur _ _ _ Hfr) as Hcur; simpl in Hc.
+  - (* opobject *)
+    inversion Hc; subst cs nv' sn'. clear Hc. simpl in Hat, HpcE. uncons Hat A0. cbn [den_ents].
+    destruct HS as [S1 S2]. pose proof HJ as (HE & Hn & Hl & HP).
+    assert (Htk : take_pairs ntot (stk_of acc ++ st) [] = Some (acc, st)).
+    { simpl in Hlen. rewrite Nat.add_0_r in Hlen. subst ntot. rewrite take_pairs_stk, app_nil_r. reflexivity. }
+    destruct (mk_obj acc) as [w|e] eqn:Em; cbn [of_sum fst snd].
+    + apply G_single with (vs3 := vs) (n3 := n) (o3 := o) (g3 := g).
+      * subst c; simpl. rewrite HpcE. replace (p + 0 + 1) with (S p) by lia.
+        eapply steps_step; [eapply st_object_ok; eauto|apply steps_refl].
+      * apply chg_refl.
+      * cl.
+      * simpl; lia.
+      * intros vs2 n2 g2 Kp L. eapply S2; eauto.
+    + eapply G_end; [eapply steps_step; [eapply st_object_err; eauto|apply steps_refl]|apply chg_refl|cl|reflexivity|exact HP].
+  - pose proof (Forall_inv HF) as [Hkq Hqv]. pose proof (Forall_inv_tail HF) as HF'. simpl in Hkq, Hqv. cbn [den_ents].
+    destruct k0 as [str|kq].
+    + (* push k; load v; value *)
+      destruct (comp qv ce cur (p + length [Ipush (VStr str)] + 1) nvi sni) as [[[cv n2] s2]|] eqn:Ev; [|discriminate].
+      match type of Hc with context [comp_ents ?C ?x r ?pp n2 s2] => destruct (comp_ents C x r pp n2 s2) as [[[cr n3] s3]|] eqn:Er; [|discriminate] end.
+      inversion Hc; subst cs nv' sn'. clear Hc.
+      simpl length in Ev, Er. replace (p + 1 + 1) with (S (S p)) in Ev, Er by lia.
+      cbn [concat app] in Hat. rewrite <- app_assoc in Hat. uncons Hat A0. uncons Hat A1.
+      destruct (code_at_app _ _ _ _ Hat) as [Hatv Hatr].
+      rewrite bind_single.
+      destruct (comp_mono _ _ _ _ _ _ _ _ _ Ev) as [Mv _].
+      assert (Mr : n2 <= n3).
+      { apply comp_ents_mono in Er; [lia|]. eapply Forall_EntP_impl; [|exact HF']. simpl. intros a _ p0 n1 s c0 n' s' H. eapply comp_mono; eauto. }
+      eapply G_pre; [eapply steps_step; [eapply st_push; exact A0|apply steps_refl]|apply chg_refl|cl|].
+      refine (obj_lstep qv Hqv sc cur base Hfr ce (S p) nvi sni cv n2 s2 k Ev A1 Hatv
+                (fun w => den_ents (fun a => den a rho v) r (acc ++ [(VStr str, w)])) v rho pcE st (SV (VStr str) :: stk_of acc ++ st)
+                fk hi o ko K K0 n0 lim P vs n g HS HJ HG ltac:(lia) Hko Hoo Hlim Hk HKk HK1 HK2 HK0 _).
+      intros w fk2 vs2 n2' o2 g2 K02 P2 c2 HS2 HJ2 HG2 HK02 Hko2.
+      change (SV w :: SV (VStr str) :: stk_of acc ++ st) with ((SV w :: SV (VStr str) :: stk_of acc) ++ st).
+      rewrite <- stk_of_snoc.
+      refine (IHr HF' sc cur base Hfr ce k ntot pcE st rho v n0 ko K lim hi (S (S p) + length cv) n2 s2 cr n3 s3 Er Hatr _
+                (acc ++ [(VStr str, w)]) _ fk2 vs2 n2' o2 g2 K02 P2 HS2 HJ2 HG2 Hhi Hko Hko2 ltac:(lia) ltac:(lia) HKk _ HK2 HK02).
+      * rewrite HpcE. cbn [concat app length]. rewrite !app_length. simpl. lia.
+      * rewrite app_length. simpl in *. lia.
+      * intros i Hi. apply HK1. lia.
+    + (* load v; key; load v; value *)
+      destruct (comp kq ce cur (S p) nvi sni) as [[[ck n1] s1]|] eqn:Ek; [|discriminate].
+      destruct (comp qv ce cur (p + length (Iload (cur, k) :: ck) + 1) n1 s1) as [[[cv n2] s2]|] eqn:Ev; [|discriminate].
+      match type of Hc with context [comp_ents ?C ?x r ?pp n2 s2] => destruct (comp_ents C x r pp n2 s2) as [[[cr n3] s3]|] eqn:Er; [|discriminate] end.
+      inversion Hc; subst cs nv' sn'. clear Hc.
+      simpl length in Ev, Er. replace (p + S (length ck) + 1) with (S (S p + length ck)) in Ev, Er by lia.
+      cbn [concat app] in Hat. rewrite <- !app_assoc in Hat. uncons Hat A0.
+      destruct (code_at_app _ _ _ _ Hat) as [Hatk Hat2]. cbn [app] in Hat2. uncons Hat2 A1.
+      destruct (code_at_app _ _ _ _ Hat2) as [Hatv Hatr].
+      destruct (comp_mono _ _ _ _ _ _ _ _ _ Ek) as [Mk _].
+      destruct (comp_mono _ _ _ _ _ _ _ _ _ Ev) as [Mv _].
+      assert (Mr : n2 <= n3).
+      { apply comp_ents_mono in Er; [lia|]. eapply Forall_EntP_impl; [|exact HF']. simpl. intros a _ p0 n1' s c0 n' s' H. eapply comp_mono; eauto. }
+      refine (obj_lstep kq Hkq sc cur base Hfr ce p nvi sni ck n1 s1 k Ek A0 Hatk
+                (fun kv => bind (den qv rho v) (fun w => den_ents (fun a => den a rho v) r (acc ++ [(kv, w)]))) v rho pcE st (stk_of acc ++ st)
+                fk hi o ko K K0 n0 lim P vs n g HS HJ HG ltac:(lia) Hko Hoo Hlim Hk HKk HK1 HK2 HK0 _).
+      intros kv fk1 vs1 n1' o1 g1 K01 P1 c1 HS1 HJ1 HG1 HK01 Hko1.
+      refine (obj_lstep qv Hqv sc cur base Hfr ce (S p + length ck) n1 s1 cv n2 s2 k Ev A1 Hatv
+                (fun w => den_ents (fun a => den a rho v) r (acc ++ [(kv, w)])) v rho pcE st (SV kv :: stk_of acc ++ st)
+                fk1 hi o1 ko K K01 n0 lim P1 vs1 n1' g1 HS1 HJ1 HG1 ltac:(lia) Hko Hko1 ltac:(lia) ltac:(lia) HKk _ HK2 HK01 _).
+      * intros i Hi. apply HK1. lia.
+      * intros w fk2 vs2 n2' o2 g2 K02 P2 c2 HS2 HJ2 HG2 HK02 Hko2.
+        change (SV w :: SV kv :: stk_of acc ++ st) with ((SV w :: SV kv :: stk_of acc) ++ st).
+        rewrite <- stk_of_snoc.
+        refine (IHr HF' sc cur base Hfr ce k ntot pcE st rho v n0 ko K lim hi (S (S p + length ck) + length cv) n2 s2 cr n3 s3 Er Hatr _
+                  (acc ++ [(kv, w)]) _ fk2 vs2 n2' o2 g2 K02 P2 HS2 HJ2 HG2 Hhi Hko Hko2 ltac:(lia) ltac:(lia) HKk _ HK2 HK02).
+        -- rewrite HpcE. cbn [concat app length]. repeat (rewrite app_length; cbn [length app]). lia.
+        -- rewrite app_length. simpl in *. lia.
+        -- intros i Hi. apply HK1. lia.
+Qed.
+
+Lemma Forall_EntP_all : forall (Q : query -> Prop) (es : list ent), (forall a, Q a) -> Forall (EntP Q) es.
+Proof. intros Q es H. induction es as [|[k qv] r IH]; constructor; auto. split; [destruct k; simpl; auto|simpl; auto]. Qed.
+
+Lemma impl_object : forall es, Forall (EntP (fun a => Impl a)) es -> Impl (QObject es).
+Proof.
+  intros es HF. impl_intro. change (comp_object (fun a p n s => comp a ce cur p n s) (cur, nv) es pc nv sn = Some (cq, nv', sn')) in Hc.
+  destruct es as [|e es].
+  - (* {} *) simpl in Hc. inversion Hc; subst cq nv' sn'. cbn [Den.den1 den_ents of_sum mk_obj mk_obj_rev rev fst snd]. uncons Hat A1.
+    apply G_single with (vs3 := vs) (n3 := n) (o3 := o) (g3 := g).
+    + subst c; simpl. replace (pc + 1) with (S pc) by lia. one st_const. constructor.
+    + apply chg_refl.
+    + cl.
+    + simpl; lia.
+    + intros vs2 n2 g2 Kp L. eapply S2; eauto.
+  - destruct (comp_object_inv _ _ _ _ _ _ _ _ _ _ Hc) as (cs & E & [(kcs & w & Hk & Hm & ->)|[Hk ->]]).
+    + (* a constant object *)
+      pose proof (ents_const_den _ (fun a => den a rho v) _ _ _ _ _ _ _ _ _ E Hk
+                 (Forall_EntP_all _ _ (fun a p0 n1 s n' s' k0 H => comp_const1 nt _ a ce _ _ _ _ _ _ _ H rho v)) []) as X.
+      assert (X' : den (QObject (e :: es)) rho v = of_sum (mk_obj ([] ++ kcs))) by exact X. rewrite X'. clear X X'.
+      simpl app. rewrite Hm. cbn [of_sum fst snd]. uncons Hat A1.
+      apply G_single with (vs3 := vs) (n3 := n) (o3 := o) (g3 := g).
+      * subst c; simpl. replace (pc + 1) with (S pc) by lia. one st_const. constructor.
+      * apply chg_refl.
+      * cl.
+      * simpl; lia.
+      * intros vs2 n2 g2 Kp L. eapply S2; eauto.
+    + (* store v; the entries; opobject *)
+      assert (Mn : S nv <= nv').
+      { apply comp_ents_mono in E; [lia|]. eapply Forall_EntP_impl; [|exact HF]. simpl. intros a _ p0 n1 s c0 n' s' H. eapply comp_mono; eauto. }
+      std_facts. pose proof (conj S1 S2) as HS. destruct (stable_sub _ _ _ _ _ _ _ _ _ _ _ _ _ _ HS) as [S1' S2'].
+      assert (HJ0 : Jstd sc ce rho n0 (base + nv) o P vs n g) by (split; auto).
+      uncons Hat A0.
+      destruct (update_some vs (base + nv) (SV v)) as [vs1 U]; [lia|].
+      destruct (update_spec _ _ _ _ U) as (UL & UN & UO).
+      assert (HJ1 : Jstd sc ce rho n0 (base + nv) o P vs1 n g) by (eapply Jstd_update; [exact S1'|exact HJ0|exact U|lia|lia]).
+      eapply G_pre; [eapply steps_step; [eapply st_store; [exact A0|apply Hcur|exact U]|apply steps_refl]
+                    |eapply chg_update; [exact U|subst c; simpl; lia]|cl|].
+      change (den (QObject (e :: es)) rho v) with (den_ents (fun a => den a rho v) (e :: es) []).
+      set (pcE := pc + length (Istore (cur, nv) :: concat cs ++ [Iobject (length (e :: es))])) in *.
+      set (cb := ctx_of sc pcE st fk (base + S nv) (base + nv') o ko K K0 ce n0 (ctr g)).
+      assert (HSb : stable cb P).
+      { split.
+        - intros a b m g0 m' g' Hp C Hm. eapply S1; [exact Hp| |exact Hm]. eapply chg_mono; [|exact C]. subst cb c; simpl. intros; lia.
+        - exact S2. }
+      pose proof (obj_tail (e :: es) HF sc cur base Hfr ce nv (length (e :: es)) pcE st rho v n0 ko K (base + nv) (base + nv')
+                    (S pc) (S nv) sn cs nv' sn' E Hat ltac:(subst pcE; simpl; rewrite app_length; simpl; lia) [] eq_refl
+                    fk vs1 n o g K0 P HSb HJ1 UN (le_n _) Hko Hoo ltac:(lia) ltac:(lia) ltac:(apply HK1; lia)
+                    ltac:(intros; apply HK1; lia) HK2 HK0) as HT.
+      cbv zeta in HT. fold cb in HT. simpl app in HT.
+      refine (G_sub nt code cb c _ _ eq_refl eq_refl eq_refl eq_refl _ _ _ (le_n _) (le_n _) (le_n _) _ _ _ HT).
+      * subst cb c; simpl. intros; lia.
+      * intros o3 a b Kp. exact Kp.
+      * intros a b Kp. exact Kp.
+      * intros s0. apply Tend_sub; auto. subst cb c; simpl. intros; lia.
+Qed.
+
+
+(* ---- destructuring patterns ---- *)
+
+(* the variables bound by a pattern hold the values of its bindings (parallel lists, the last binding first) *)
+Definition bound_ok (base cur lo hi : nat) (vs : list sv) (b : list (vname * var)) (bnds : venv) : Prop :=
+  Forall2 (fun cb sb => fst cb = fst sb /\ exists k w, snd cb = (cur, k) /\ lo <= k < hi /\ snd sb = BV w /\
+                        nth_error vs (base + k) = Some (SV w)) b bnds.
+Lemma bound_ok_mono : forall base cur lo hi lo' hi' vs vs' b bnds, bound_ok base cur lo hi vs b bnds -> lo' <= lo -> hi <= hi' ->
+  (forall k, lo <= k < hi -> nth_error vs' (base + k) = nth_error vs (base + k)) -> bound_ok base cur lo' hi' vs' b bnds.
+Proof.
+  intros base cur lo hi lo' hi' vs vs' b bnds H Hlo Hhi Hs. induction H as [|cb sb b' bnds' (E & k & w & Ek & Hk & Ew & Hn) _ IH]; constructor; auto.
+  split; [exact E|]. exists k, w. split; [exact Ek|]. split; [lia|]. split; [exact Ew|]. rewrite Hs by lia. exact Hn.
+Qed.
+Lemma bound_ok_app : forall base cur lo hi vs b1 bnds1 b2 bnds2, bound_ok base cur lo hi vs b1 bnds1 -> bound_ok base cur lo hi vs b2 bnds2 ->
+  bound_ok base cur lo hi vs (b1 ++ b2) (bnds1 ++ bnds2).
+Proof. intros. apply Forall2_app; auto. Qed.
+
+Definition pat_res (sc : list frame) (pc' : nat) (st : list sv) (fk : list fork) (n o : nat) (g : gx) (base cur lo hi : nat)
+  (vs : list sv) (b : list (vname * var)) (r : venv + err0) (s : state) : Prop :=
+  match r with
+  | inl bnds => exists vs', steps s (N sc pc' st fk vs' n o g) /\ chg (fun i => base + lo <= i < base + hi) vs vs' /\
+                            bound_ok base cur lo hi vs' b bnds
+  | inr e => exists vs', steps s (B (Some (VE (err_of e))) fk vs' n g) /\ chg (fun i => base + lo <= i < base + hi) vs vs'
+  end.
+
+Lemma parr_match_cons : forall p r i w, parr_match nt (ACons p r) i w =
+  match index_arr nt w i with
+  | inl wi => match pmatch nt p wi with
+              | inl b1 => match parr_match nt r (S i) w with inl b2 => inl (b2 ++ b1) | inr e => inr e end
+              | inr e => inr e end
+  | inr e => inr e
+  end.
+Proof. reflexivity. Qed.
+Lemma pobj_match_key : forall k p r w, pobj_match nt (OKey k p r) w =
+  match n_index nt w (VStr k) with
+  | inl wk => match pmatch nt p wk with
+              | inl b1 => match pobj_match nt r w with inl b2 => inl (b2 ++ b1) | inr e => inr e end
+              | inr e => inr e end
+  | inr e => inr e
+  end.
+Proof. reflexivity. Qed.
+Lemma pobj_match_keyvar : forall k x p r w, pobj_match nt (OKeyVar k x p r) w =
+  match n_index nt w (VStr k) with
+  | inl wk => match pmatch nt p wk with
+              | inl b1 => match pobj_match nt r w with inl b2 => inl (b2 ++ b1 ++ [(x, BV wk)]) | inr e => inr e end
+              | inr e => inr e end
+  | inr e => inr e
+  end.
+Proof. reflexivity. Qed.
+
+Lemma pat_run : forall sc cur base, frameOK sc cur base ->
+  (forall p nv c b n', pcomp p cur nv = (c, b, n') -> forall pc, code_at pc c ->
+     forall w st fk vs n o g, base + n' <= length vs ->
+     pat_res sc (pc + length c) st fk n o g base cur nv n' vs b (pmatch nt p w) (N sc pc (SV w :: st) fk vs n o g)) /\
+  (forall l i kv nv c b n', parr_comp l i (cur, kv) cur nv = (c, b, n') -> kv < nv -> forall pc, code_at pc c ->
+     forall w st fk vs n o g, base + n' <= length vs -> nth_error vs (base + kv) = Some (SV w) ->
+     pat_res sc (pc + length c) st fk n o g base cur nv n' vs b (parr_match nt l i w) (N sc pc st fk vs n o g)) /\
+  (forall l kv nv c b n', pobj_comp l (cur, kv) cur nv = (c, b, n') -> kv < nv -> forall pc, code_at pc c ->
+     forall w st fk vs n o g, base + n' <= length vs -> nth_error vs (base + kv) = Some (SV w) ->
+     pat_res sc (pc + length c) st fk n o g base cur nv n' vs b (pobj_match nt l w) (N sc pc st fk vs n o g)).
+Proof.
+  intros sc cur base Hfr. pose proof (frameOK_cur _ _ _ Hfr) as Hcur.
+  apply pattern_mutind.
+  - (* $x *)
+    intros x nv c b n' Hc pc Hat w st fk vs n o g Hlen. simpl in Hc. inversion Hc; subst c b n'. clear Hc. uncons Hat A0.
+    destruct (update_some vs (base + nv) (SV w)) as [vs1 U]; [lia|]. destruct (update_spec _ _ _ _ U) as (UL & UN & UO).
+    cbn [pmatch parr_match pobj_match]. unfold pat_res. exists vs1. split; [simpl; replace (pc + 1) with (S pc) by lia; one st_store; apply steps_refl|].
+    split; [eapply chg_update; [exact U|simpl; lia]|].
+    constructor; [|constructor]. split; [reflexivity|]. exists nv, w. simpl. auto 6 with arith.
+  - (* [ ... ] *)
+    intros l IH nv c b n' Hc pc Hat w st fk vs n o g Hlen. simpl in Hc.
+    destruct (parr_comp l 0 (cur, nv) cur (S nv)) as [[c0 b0] n0] eqn:E. inversion Hc; subst c b n'. clear Hc. uncons Hat A0.
+    pose proof (proj1 (proj2 pcomp_nvars) _ _ _ _ _ _ _ _ E) as Mn.
+    destruct (update_some vs (base + nv) (SV w)) as [vs1 U]; [lia|]. destruct (update_spec _ _ _ _ U) as (UL & UN & UO).
+    pose proof (IH 0 nv (S nv) c0 b0 n0 E (le_n _) (S pc) Hat w st fk vs1 n o g ltac:(lia) UN) as HR.
+    change (pmatch nt (PArr l) w) with (parr_match nt l 0 w). simpl length. replace (pc + S (length c0)) with (S pc + length c0) by lia.
+    assert (C1 : chg (fun i => base + nv <= i < base + n0) vs vs1) by (eapply chg_update; [exact U|simpl; lia]).
+    destruct (parr_match nt l 0 w) as [bnds|e]; unfold pat_res in *.
+    + destruct HR as (vs' & St & Ch & Hb). exists vs'. split; [one st_store; exact St|].
+      split; [eapply chg_trans; [exact C1|eapply chg_mono; [|exact Ch]; simpl; intros; lia]|].
+      eapply bound_ok_mono; [exact Hb|lia|lia|auto].
+    + destruct HR as (vs' & St & Ch). exists vs'. split; [one st_store; exact St|].
+      eapply chg_trans; [exact C1|eapply chg_mono; [|exact Ch]; simpl; intros; lia].
+  - (* { ... } *)
+    intros l IH nv c b n' Hc pc Hat w st fk vs n o g Hlen. simpl in Hc.
+    destruct (pobj_comp l (cur, nv) cur (S nv)) as [[c0 b0] n0] eqn:E. inversion Hc; subst c b n'. clear Hc. uncons Hat A0.
+    pose proof (proj2 (proj2 pcomp_nvars) _ _ _ _ _ _ _ E) as Mn.
+    destruct (update_some vs (base + nv) (SV w)) as [vs1 U]; [lia|]. destruct (update_spec _ _ _ _ U) as (UL & UN & UO).
+    pose proof (IH nv (S nv) c0 b0 n0 E (le_n _) (S pc) Hat w st fk vs1 n o g ltac:(lia) UN) as HR.
+    change (pmatch nt (PObj l) w) with (pobj_match nt l w). simpl length. replace (pc + S (length c0)) with (S pc + length c0) by lia.
+    assert (C1 : chg (fun i => base + nv <= i < base + n0) vs vs1) by (eapply chg_update; [exact U|simpl; lia]).
+    destruct (pobj_match nt l w) as [bnds|e]; unfold pat_res in *.
+    + destruct HR as (vs' & St & Ch & Hb). exists vs'. split; [one st_store; exact St|].
+      split; [eapply chg_trans; [exact C1|eapply chg_mono; [|exact Ch]; simpl; intros; lia]|].
+      eapply bound_ok_mono; [exact Hb|lia|lia|auto].
+    + destruct HR as (vs' & St & Ch). exists vs'. split; [one st_store; exact St|].
+      eapply chg_trans; [exact C1|eapply chg_mono; [|exact Ch]; simpl; intros; lia].
+  - (* no more elements *)
+    intros i kv nv c b n' Hc Hkv pc Hat w st fk vs n o g Hlen Hv. simpl in Hc. inversion Hc; subst c b n'.
+    cbn [pmatch parr_match pobj_match]. unfold pat_res. exists vs. simpl. rewrite Nat.add_0_r. split; [apply steps_refl|]. split; [apply chg_refl|constructor].
+  - (* an element *)
+    intros p IHp r IHr i kv nv c b n' Hc Hkv pc Hat w st fk vs n o g Hlen Hv. simpl in Hc.
+    destruct (pcomp p cur nv) as [[c1 b1] n1] eqn:E1. destruct (parr_comp r (S i) (cur, kv) cur n1) as [[c2 b2] n2] eqn:E2.
+    inversion Hc; subst c b n'. clear Hc.
+    pose proof (proj1 pcomp_nvars _ _ _ _ _ _ E1) as M1. pose proof (proj1 (proj2 pcomp_nvars) _ _ _ _ _ _ _ _ E2) as M2.
+    uncons Hat A0. uncons Hat A1. destruct (code_at_app _ _ _ _ Hat) as [Hat1 Hat2].
+    rewrite parr_match_cons.
+    assert (Epc : pc + length (Iload (cur, kv) :: Iindexarray i :: c1 ++ c2) = S (S pc) + length c1 + length c2) by (simpl; rewrite app_length; lia).
+    rewrite Epc.
+    destruct (index_arr nt w i) as [wi|e] eqn:Ei.
+    2:{ unfold pat_res. exists vs. split; [eapply steps_step; [eapply st_load; [exact A0|apply Hcur|exact Hv]|]; one st_indexarray_err; apply steps_refl|apply chg_refl]. }
+    pose proof (IHp nv c1 b1 n1 E1 (S (S pc)) Hat1 wi st fk vs n o g ltac:(lia)) as H1.
+    destruct (pmatch nt p wi) as [bn1|e]; unfold pat_res in H1.
+    2:{ destruct H1 as (vs1 & St1 & Ch1). unfold pat_res. exists vs1.
+        split; [eapply steps_step; [eapply st_load; [exact A0|apply Hcur|exact Hv]|]; one st_indexarray_ok; exact St1|].
+        eapply chg_mono; [|exact Ch1]. simpl; intros; lia. }
+    destruct H1 as (vs1 & St1 & Ch1 & Hb1).
+    assert (Hv1 : nth_error vs1 (base + kv) = Some (SV w)) by (rewrite <- (proj2 Ch1) by lia; exact Hv).
+    pose proof (IHr (S i) kv n1 c2 b2 n2 E2 ltac:(lia) (S (S pc) + length c1) Hat2 w st fk vs1 n o g ltac:(destruct Ch1; lia) Hv1) as H2.
+    destruct (parr_match nt r (S i) w) as [bn2|e]; unfold pat_res in H2 |- *.
+    + destruct H2 as (vs2 & St2 & Ch2 & Hb2). exists vs2.
+      split; [eapply steps_step; [eapply st_load; [exact A0|apply Hcur|exact Hv]|]; one st_indexarray_ok; eapply steps_trans; [exact St1|exact St2]|].
+      split; [eapply chg_trans; eapply chg_mono; [|exact Ch1| |exact Ch2]; simpl; intros; lia|].
+      apply bound_ok_app.
+      * eapply bound_ok_mono; [exact Hb2|lia|lia|auto].
+      * eapply bound_ok_mono; [exact Hb1|lia|lia|]. intros k Hk. symmetry. apply (proj2 Ch2). lia.
+    + destruct H2 as (vs2 & St2 & Ch2). exists vs2.
+      split; [eapply steps_step; [eapply st_load; [exact A0|apply Hcur|exact Hv]|]; one st_indexarray_ok; eapply steps_trans; [exact St1|exact St2]|].
+      eapply chg_trans; eapply chg_mono; [|exact Ch1| |exact Ch2]; simpl; intros; lia.
+  - (* no more entries *)
+    intros kv nv c b n' Hc Hkv pc Hat w st fk vs n o g Hlen Hv. simpl in Hc. inversion Hc; subst c b n'.
+    cbn [pmatch parr_match pobj_match]. unfold pat_res. exists vs. simpl. rewrite Nat.add_0_r. split; [apply steps_refl|]. split; [apply chg_refl|constructor].
+  - (* k: p *)
+    intros k p IHp r IHr kv nv c b n' Hc Hkv pc Hat w st fk vs n o g Hlen Hv. simpl in Hc.
+    destruct (pcomp p cur nv) as [[c1 b1] n1] eqn:E1. destruct (pobj_comp r (cur, kv) cur n1) as [[c2 b2] n2] eqn:E2.
+    inversion Hc; subst c b n'. clear Hc.
+    pose proof (proj1 pcomp_nvars _ _ _ _ _ _ E1) as M1. pose proof (proj2 (proj2 pcomp_nvars) _ _ _ _ _ _ _ E2) as M2.
+    uncons Hat A0. uncons Hat A1. destruct (code_at_app _ _ _ _ Hat) as [Hat1 Hat2].
+    rewrite pobj_match_key.
+    assert (Epc : pc + length (Iload (cur, kv) :: Iindex (VStr k) :: c1 ++ c2) = S (S pc) + length c1 + length c2) by (simpl; rewrite app_length; lia).
+    rewrite Epc.
+    destruct (n_index nt w (VStr k)) as [wi|e] eqn:Ei.
+    2:{ unfold pat_res. exists vs. split; [eapply steps_step; [eapply st_load; [exact A0|apply Hcur|exact Hv]|]; one st_index_err; apply steps_refl|apply chg_refl]. }
+    pose proof (IHp nv c1 b1 n1 E1 (S (S pc)) Hat1 wi st fk vs n o g ltac:(lia)) as H1.
+    destruct (pmatch nt p wi) as [bn1|e]; unfold pat_res in H1.
+    2:{ destruct H1 as (vs1 & St1 & Ch1). unfold pat_res. exists vs1.
+        split; [eapply steps_step; [eapply st_load; [exact A0|apply Hcur|exact Hv]|]; one st_index_ok; exact St1|].
+        eapply chg_mono; [|exact Ch1]. simpl; intros; lia. }
+    destruct H1 as (vs1 & St1 & Ch1 & Hb1).
+    assert (Hv1 : nth_error vs1 (base + kv) = Some (SV w)) by (rewrite <- (proj2 Ch1) by lia; exact Hv).
+    pose proof (IHr kv n1 c2 b2 n2 E2 ltac:(lia) (S (S pc) + length c1) Hat2 w st fk vs1 n o g ltac:(destruct Ch1; lia) Hv1) as H2.
+    destruct (pobj_match nt r w) as [bn2|e]; unfold pat_res in H2 |- *.
+    + destruct H2 as (vs2 & St2 & Ch2 & Hb2). exists vs2.
+      split; [eapply steps_step; [eapply st_load; [exact A0|apply Hcur|exact Hv]|]; one st_index_ok; eapply steps_trans; [exact St1|exact St2]|].
+      split; [eapply chg_trans; eapply chg_mono; [|exact Ch1| |exact Ch2]; simpl; intros; lia|].
+      apply bound_ok_app.
+      * eapply bound_ok_mono; [exact Hb2|lia|lia|auto].
+      * eapply bound_ok_mono; [exact Hb1|lia|lia|]. intros k0 Hk. symmetry. apply (proj2 Ch2). lia.
+    + destruct H2 as (vs2 & St2 & Ch2). exists vs2.
+      split; [eapply steps_step; [eapply st_load; [exact A0|apply Hcur|exact Hv]|]; one st_index_ok; eapply steps_trans; [exact St1|exact St2]|].
+      eapply chg_trans; eapply chg_mono; [|exact Ch1| |exact Ch2]; simpl; intros; lia.
+  - (* $x: p *)
+    intros k x p IHp r IHr kv nv c b n' Hc Hkv pc Hat w st fk vs n o g Hlen Hv. simpl in Hc.
+    destruct (pcomp p cur (S nv)) as [[c1 b1] n1] eqn:E1. destruct (pobj_comp r (cur, kv) cur n1) as [[c2 b2] n2] eqn:E2.
+    inversion Hc; subst c b n'. clear Hc.
+    pose proof (proj1 pcomp_nvars _ _ _ _ _ _ E1) as M1. pose proof (proj2 (proj2 pcomp_nvars) _ _ _ _ _ _ _ E2) as M2.
+    uncons Hat A0. uncons Hat A1. uncons Hat A2. uncons Hat A3. destruct (code_at_app _ _ _ _ Hat) as [Hat1 Hat2].
+    rewrite pobj_match_keyvar.
+    assert (Epc : pc + length (Iload (cur, kv) :: Iindex (VStr k) :: Idup :: Istore (cur, nv) :: c1 ++ c2) = S (S (S (S pc))) + length c1 + length c2) by (simpl; rewrite app_length; lia).
+    rewrite Epc.
+    destruct (n_index nt w (VStr k)) as [wi|e] eqn:Ei.
+    2:{ unfold pat_res. exists vs. split; [eapply steps_step; [eapply st_load; [exact A0|apply Hcur|exact Hv]|]; one st_index_err; apply steps_refl|apply chg_refl]. }
+    destruct (update_some vs (base + nv) (SV wi)) as [vs0 U]; [lia|]. destruct (update_spec _ _ _ _ U) as (UL & UN & UO).
+    assert (C0 : chg (fun i => base + nv <= i < base + n2) vs vs0) by (eapply chg_update; [exact U|simpl; lia]).
+    assert (Hv0 : nth_error vs0 (base + kv) = Some (SV w)) by (rewrite UO by lia; exact Hv).
+    assert (St0 : steps (N sc pc st fk vs n o g) (N sc (S (S (S (S pc)))) (SV wi :: st) fk vs0 n o g)).
+    { eapply steps_step; [eapply st_load; [exact A0|apply Hcur|exact Hv]|]. one st_index_ok. one st_dup. one st_store. apply steps_refl. }
+    pose proof (IHp (S nv) c1 b1 n1 E1 (S (S (S (S pc)))) Hat1 wi st fk vs0 n o g ltac:(lia)) as H1.
+    destruct (pmatch nt p wi) as [bn1|e]; unfold pat_res in H1.
+    2:{ destruct H1 as (vs1 & St1 & Ch1). unfold pat_res. exists vs1.
+        split; [eapply steps_trans; [exact St0|exact St1]|].
+        eapply chg_trans; [exact C0|]. eapply chg_mono; [|exact Ch1]. simpl; intros; lia. }
+    destruct H1 as (vs1 & St1 & Ch1 & Hb1).
+    assert (Hv1 : nth_error vs1 (base + kv) = Some (SV w)) by (rewrite <- (proj2 Ch1) by lia; exact Hv0).
+    pose proof (IHr kv n1 c2 b2 n2 E2 ltac:(lia) (S (S (S (S pc))) + length c1) Hat2 w st fk vs1 n o g ltac:(destruct Ch1; lia) Hv1) as H2.
+    destruct (pobj_match nt r w) as [bn2|e]; unfold pat_res in H2 |- *.
+    + destruct H2 as (vs2 & St2 & Ch2 & Hb2). exists vs2.
+      split; [eapply steps_trans; [exact St0|]; eapply steps_trans; [exact St1|exact St2]|].
+      split; [eapply chg_trans; [exact C0|]; eapply chg_trans; eapply chg_mono; [|exact Ch1| |exact Ch2]; simpl; intros; lia|].
+      apply bound_ok_app; [|apply bound_ok_app].
+      * eapply bound_ok_mono; [exact Hb2|lia|lia|auto].
+      * eapply bound_ok_mono; [exact Hb1|lia|lia|]. intros k0 Hk. symmetry. apply (proj2 Ch2). lia.
+      * constructor; [|constructor]. split; [reflexivity|]. exists nv, wi. simpl. split; [reflexivity|]. split; [lia|]. split; [reflexivity|].
+        rewrite <- (proj2 Ch2) by lia. rewrite <- (proj2 Ch1) by lia. exact UN.
+    + destruct H2 as (vs2 & St2 & Ch2). exists vs2.
+      split; [eapply steps_trans; [exact St0|]; eapply steps_trans; [exact St1|exact St2]|].
+      eapply chg_trans; [exact C0|]. eapply chg_trans; eapply chg_mono; [|exact Ch1| |exact Ch2]; simpl; intros; lia.
+Qed.
+
+Lemma envOK_add_vars : forall sc cur base, (forall k, index_of sc (cur, k) = Some (base + k)) ->
+  forall bs bnds ce rho vs n0 lim lo hi, bound_ok base cur lo hi vs bs bnds -> base + hi <= lim ->
+  envOK sc ce rho vs n0 lim -> envOK sc (add_vars ce bs) (bnds ++ rho) vs n0 lim.
+Proof.
+  intros sc cur base Hcur bs bnds ce rho vs n0 lim lo hi Hb Hlim HE.
+  induction Hb as [|[x y] [x' sb] b' bnds' (E & k & w & Ek & Hk & Ew & Hn) _ IH]; [exact HE|].
+  simpl in *. subst x' y sb. eapply envOK_add_var; [exact IH|apply Hcur|lia|exact Hn].
+Qed.
+Lemma kept_add_vars : forall sc cur base, (forall k, index_of sc (cur, k) = Some (base + k)) ->
+  forall bs bnds ce vs lo hi i, bound_ok base cur lo hi vs bs bnds -> kept sc (add_vars ce bs) i ->
+  (exists k, lo <= k < hi /\ i = base + k) \/ kept sc ce i.
+Proof.
+  intros sc cur base Hcur bs bnds ce vs lo hi i Hb. induction Hb as [|[x y] [x' sb] b' bnds' (E & k & w & Ek & Hk & Ew & Hn) _ IH]; intros Hi; [right; exact Hi|].
+  simpl in *. subst y. destruct (kept_add_var _ _ _ _ _ _ (Hcur k) Hi) as [->|Hi']; [left; exists k; auto|auto].
+Qed.
+
+Lemma impl_bindp : forall qs p qb, Impl qs -> Impl qb -> Impl (QBindP qs p qb).
+Proof.
+  intros qs p qb IHs IHb. impl_intro.
+  destruct (comp_bindp_inv _ _ _ _ _ _ _ _ _ _ _ _ _ Hc) as (Hpv & Hok & cs & n1 & s1 & cp & bs & n2 & cb & Es & Ep & En & Eb & ->). clear Hc.
+  cbn [tl_fb] in Eb.
+  destruct (comp_mono _ _ _ _ _ _ _ _ _ Es) as [M1 _]. destruct (comp_mono _ _ _ _ _ _ _ _ _ Eb) as [M2 _].
+  pose proof (proj1 pcomp_nvars _ _ _ _ _ _ Ep) as Mp.
+  std_facts. pose proof (conj S1 S2) as HS. destruct (stable_sub _ _ _ _ _ _ _ _ _ _ _ _ _ _ HS) as [S1' S2'].
+  assert (HJ0 : Jstd sc ce rho n0 (base + nv) o P vs n g) by (split; auto).
+  cbn [Den.den1].
+  uncons Hat A0. uncons Hat A1. destruct (code_at_app _ _ _ _ Hat) as [Hats Hat2].
+  destruct (code_at_app _ _ _ _ Hat2) as [Hatp Hat3]. uncons Hat3 A2.
+  replace (S (S pc)) with (pc + 2) in * by lia.
+  set (pcp := pc + 2 + length cs) in *. set (pcb := S (pcp + length cp)) in *.
+  assert (Epc : pc + length (Idup :: Iexpbegin :: cs ++ cp ++ Iexpend :: cb) = pcb + length cb).
+  { simpl. rewrite !app_length. simpl. unfold pcb, pcp. lia. }
+  subst c. rewrite Epc in *.
+  assert (Epb : pcp + length cp + 1 = pcb) by (unfold pcb; lia). rewrite Epb in Eb.
+  pose proof (impl_inner qs IHs sc cur base Hfr ce (pc + 2) nv sn cs n1 s1 Es Hats rho v (SV v :: st) fk vs n n0 o g HE Hn ltac:(lia) Hlen) as HA.
+  cbv zeta in HA.
+  refine (bind_std (fun w => match pmatch nt p w with inl bnds => den qb (bnds ++ rho) v | inr e => ([], Some (XErr e)) end)
+            (fun _ => True) sc pcp (SV v :: st) (base + nv) (base + n1)
+            (pcb + length cb) st fk (base + nv) (base + nv') o ko K K0 ce n0 (ctr g) rho (base + nv) P
+            (fun i => base + n1 <= i < base + nv') ce HS (le_n _) ltac:(lia) Hko Hoo (le_n _) ltac:(lia) Hkl HK1 HK2 HK0 _ eq_refl _ _ _ (den qs rho v)
+            (N sc pc (SV v :: st) fk vs n o g) _ _ (le_n _)).
+  - intros i Hi. lia.
+  - auto.
+  - auto.
+  - intros w fk' vs' n' o' z Hj0 Ho' Ht' Hfk Hwk Hin. pose proof Hj0 as [Hj _]. pose proof Hj as (E' & Hn' & Hl' & Hp').
+    pose proof (proj1 (pat_run sc cur base Hfr) p n1 cp bs n2 Ep pcp Hatp w (SV v :: st) (fk' ++ fk) vs' n' o' z ltac:(lia)) as HR.
+    destruct (pmatch nt p w) as [bnds|e]; unfold pat_res in HR.
+    + destruct HR as (vs'' & St & Ch & Hb).
+      assert (Hj'' : Jstd sc ce rho n0 (base + nv) o P vs'' n' z).
+      { eapply (Jstd_chg' _ _ _ _ _ _ (base + nv) (base + nv')); [exact S1'| |exact Hj|exact Ch|apply cle_refl]. simpl; intros; lia. }
+      eapply G_pre; [eapply steps_trans; [exact St|]; one st_expend; apply steps_refl|eapply chg_mono; [|exact Ch]; simpl; intros; lia|cl|].
+      fold pcb.
+      apply (std_body qb IHb sc cur base Hfr (add_vars ce bs) pcb n2 s1 cb nv' sn' Eb Hat3 (pcb + length cb) st fk (base + nv) (base + nv') o ko K K0 ce n0 (ctr g)
+               (fun i => base + n1 <= i < base + nv') ce fk' o' z (bnds ++ rho) rho (base + nv) P (fun _ => True) (fun _ => True) v vs'' n' eq_refl); auto; try lia.
+      * rewrite add_vars_lbls. reflexivity.
+      * intros i Hi. split; [lia|apply HK1; lia].
+      * intros i Hi. destruct (kept_add_vars sc cur base Hcur bs bnds ce vs'' n1 n2 i Hb Hi) as [(k & Hk & ->)|Hi']; [apply HK1; lia|auto].
+      * eapply envOK_add_vars; [exact Hcur|exact Hb|lia|]. eapply envOK_lim; [exact (proj1 Hj'')|lia].
+      * destruct Ch; lia.
+    + destruct HR as (vs'' & St & Ch).
+      eapply G_end; [exact St|eapply chg_mono; [|exact Ch]; simpl; intros; lia|cl|reflexivity|].
+      apply Hin. split; [|exact I].
+      eapply (Jstd_chg' _ _ _ _ _ _ (base + nv) (base + nv')); [exact S1'| |exact Hj|exact Ch|apply cle_refl]. simpl; intros; lia.
+  - eapply G_pre; [one st_dup; one st_expbegin; apply steps_refl|apply chg_refl|cl|].
+    replace (S (S pc)) with (pc + 2) by lia. exact HA.
+  - split; auto.
+Qed.
+
 (* ---- queries in tail position ---- *)
 
 (* the slots visible from a query compiled in F1: F1's own variables below nv, or slots the caller keeps *)
@@ -3894,6 +4624,20 @@ Proof.
   - destruct IHrest. split; [apply impl_def; auto|apply implT_def; auto].
   - assert (Ia : Forall (fun a => Impl a) args) by (eapply Forall_impl; [|exact IHargs]; intros a [H _]; exact H).
     split; [apply impl_callf; auto|apply implT_callf; auto].
+  - assert (Ie : Forall (EntP (fun a => Impl a)) es).
+    { eapply Forall_impl; [|exact IHes]. intros [k qv] [Hk [Hv _]]. split; [destruct k; simpl in *; [exact I|exact (proj1 Hk)]|exact Hv]. }
+    split; [apply impl_object; auto|apply implT_nt; [apply impl_object; auto|]].
+    intros ? ? ? ? ? ? ? ? H. exact H.
+  - destruct IHs, IHb. split; [apply impl_bindp; auto|apply implT_nt; [apply impl_bindp; auto|]].
+    intros ce pe cj cur pc nv sn [[cq nv'] sn'] Hc.
+    destruct (comp_bindp_inv _ _ _ _ _ _ _ _ _ _ _ _ _ Hc) as (Hpv & Hok & cs & n1 & s1 & cp & bs & n2 & cb & Es & Ep & En & Eb & ->).
+    cbn [tl_fb] in Eb. apply comp_forbid in Eb.
+    change (compg tco (QBindP s p b) ce None cur pc nv sn = Some (Idup :: Iexpbegin :: cs ++ cp ++ Iexpend :: cb, nv', sn')).
+    cbn [compg]. rewrite Hpv, Hok. cbn [negb andb]. rewrite Es, Ep, En. cbn [tl_fb]. rewrite Eb. reflexivity.
+  - destruct IHt, IHq. split; [apply impl_indexq; auto|apply implT_nt; [apply impl_indexq; auto|]].
+    intros ? ? ? ? ? ? ? ? Hcc. exact Hcc.
+  - destruct IHt, IHa, IHb. split; [apply impl_slice; auto|apply implT_nt; [apply impl_slice; auto|]].
+    intros ? ? ? ? ? ? ? ? Hcc. exact Hcc.
 Qed.
 
 End C.
